@@ -1,4 +1,70 @@
-From Coq Require Import List NArith.
-Theorem c03_placeholder : (1 + 1 = 2)%N.
-Proof. reflexivity. Qed.
-Print Assumptions c03_placeholder.
+(* C03  Corrupted or misdirected disk bytes never surface as a cached value.
+   Two layers: (1) bytes - what Store::load accepts, for ARBITRARY bytes (Disk/Codec.v, Disk/Fault.v);
+   (2) recovery - whatever part of the device survives and is reached by the scan, a recovered store answers a miss or a
+   version really written for the key (one-key model, Hybrid/Engine.v; an index entry whose bytes fail verification is
+   a miss: [on_disk]). *)
+From Coq Require Import List NArith Bool.
+From FV Require Import Disk.Codec Disk.Fault Hybrid.Engine Hybrid.EngineInv Hybrid.EngineThms Hybrid.EngineVers.
+Import ListNotations.
+Open Scope N_scope.
+
+(* [cksum] (XXH64) and [decompress] are external code: the theorems hold for any functions in their place.
+   An entry is handed out only if magic and compression tag are valid and the checksum in the header equals the checksum
+   of exactly the bytes then decoded as value and key. *)
+Theorem c03_accept_means_verified : forall cksum decompress raw h kenc venc,
+  load_entry cksum decompress raw = Some (h, kenc, venc) ->
+  read_header raw = inl h /\
+  let kl := N.to_nat (h_key_len h) in
+  let vl := N.to_nat (h_value_len h) in
+  let body := skipn HEADER_LEN raw in
+  (vl + kl <= length body)%nat /\
+  cksum (firstn (vl + kl) body) = h_checksum h /\
+  kenc = firstn kl (skipn vl body) /\
+  decompress (h_comp h) (firstn vl body) = Some venc.
+Proof. exact load_entry_sound. Qed.
+Print Assumptions c03_accept_means_verified.
+
+Theorem c03_header_validated : forall raw h,
+  read_header raw = inl h ->
+  (HEADER_LEN <= length raw)%nat /\ h_comp h <= 2 /\ decode_be (firstn 4 (skipn 32 raw)) / 256 = ENTRY_MAGIC / 256.
+Proof. exact read_header_sound. Qed.
+Print Assumptions c03_header_validated.
+
+(* flipped bits, zeroed or swapped pages, torn or stale sectors inside the decoded region: rejected as soon as they
+   change the checksum (a checksum collision is the residual risk) *)
+Theorem c03_damage_rejected : forall cksum decompress raw h,
+  read_header raw = inl h ->
+  cksum (firstn (N.to_nat (h_value_len h) + N.to_nat (h_key_len h)) (skipn HEADER_LEN raw)) <> h_checksum h ->
+  load_entry cksum decompress raw = None.
+Proof. exact damaged_payload_rejected. Qed.
+Print Assumptions c03_damage_rejected.
+
+Theorem c03_bad_header_rejected : forall cksum decompress raw e,
+  read_header raw = inr e -> load_entry cksum decompress raw = None.
+Proof. exact bad_header_rejected. Qed.
+Print Assumptions c03_bad_header_rejected.
+
+(* recovery over a damaged device: [vis] is what is left of the device as far as the scan is concerned (any subset of the
+   copies: a failed blob index checksum, a sequence regress, a zeroed page end the scan of a block) *)
+Theorem c03_recovery_serves_written_only : forall c l vis v,
+  lookup_now (do_recover c (krun c init_k l) vis) = Some v -> In v (ksubs (krun c init_k l)).
+Proof. exact recovery_serves_written. Qed.
+Print Assumptions c03_recovery_serves_written_only.
+
+(* an index entry whose bytes are gone or fail verification is a miss, not an older copy *)
+Theorem c03_unverifiable_copy_is_a_miss : forall s sq v b,
+  kmem s = None -> kkeep s = None -> kidx s = Some (IAddr sq v b) -> on_disk (kdisk s) v sq b = false ->
+  lookup_now s = None.
+Proof.
+  intros s sq v b Hm Hk Hi Ho. unfold lookup_now, disk_lookup, disk_lookup2. rewrite Hm, Hk, Hi. cbn [idx_get]. rewrite Ho. reflexivity.
+Qed.
+Print Assumptions c03_unverifiable_copy_is_a_miss.
+
+Example c03_nonvacuous :
+  let c := mkCfg true true false true true false in
+  let l := [KIns LDefault; KFlush 0; KComplete; KIns LDefault; KFlush 1; KComplete] in
+  (* both copies visible: v2; the block holding v2 unreadable: v1 (really written); nothing readable: miss *)
+  lookup_now (do_recover c (krun c init_k l) [(1, 1, 0); (2, 2, 1)]) = Some 2 /\
+  lookup_now (do_recover c (krun c init_k l) [(1, 1, 0)]) = Some 1 /\
+  lookup_now (do_recover c (krun c init_k l) []) = None.
+Proof. vm_compute. repeat split. Qed.
